@@ -35,17 +35,24 @@ func (t *terminal) ptyReadLoop() {
 }
 
 func (t *terminal) ptyReadOne(gr *GraphemeReader) error {
-	bw, useBytes := t.screen().(interface {
+	type stringWriter interface {
 		writeString(string, int, bool, TextReadMode)
-	})
-	if useBytes {
+	}
+	var bw stringWriter
+	var useBytes bool
+	maxWidth := 0
+	// Resize and the other API calls change this state under the lock.
+	t.WithLock(func() {
+		bw, useBytes = t.screen().(stringWriter)
 		// Never hand over more than fits on the rest of the row: with autowrap
 		// the remainder continues on the next row, without it every further
 		// character overwrites the last column.
-		maxWidth := t.screen().Size().X - t.screen().CursorPos().X
+		maxWidth = t.screen().Size().X - t.screen().CursorPos().X
 		if maxWidth < 1 {
 			maxWidth = 1
 		}
+	})
+	if useBytes {
 		data, width, merge, err := gr.ReadPrintableBytes(maxWidth)
 		if err != nil {
 			if err != io.EOF {
